@@ -23,7 +23,15 @@ PROP = {
                    "(C09_single_state); the pointer code of MergeFrom, "
                    "pvMoveBufferToHead, pvDeleteBuffer and the append in pvNewBlock implements the list operations of the state machine. The models "
                    "are executable and compared with the real pool on every run (layout: every residue of the base modulo S*N for small "
-                   "periods; state: every answer, manager call, list order, cache, metadata byte)."),
+                   "periods; state: every answer, manager call, list order, cache, metadata byte)."
+                   " The address / size arithmetic of MemPool.h (UIntMath::Ceil, GetBlockAlignment, CorrectBlockSize, pvUseCache, pvGetAlignmentAddend, "
+                   "pvGetBufferSize0/1, pvGetBufferSize, pvIsBufferBytesNear, pvGetBlock, pvGetBlockIndex, pvNewBuffer up to its first write, pvNewBlock1 up "
+                   "to its write, pvGetBlocksEndPosition and the four metadata position functions) is additionally TRANSLATED from the header text on every "
+                   "run (tools/translate.py, tools/trspecs/Pool.py -> Momo/Translated/Pool.lean: size_t wrap-around, ptrdiff_t two's complement, int8_t "
+                   "truncation explicit) and proved equal to the model functions whenever nothing wraps (Proof/TrEqPool.lean); the layout theorems are "
+                   "restated for the generated definitions for every legal pool and every base address with base + pvGetBufferSize() < 2^63 "
+                   "(C09_recover_translated, C09_newBuffer_ok_translated, C09_blocks_disjoint_inside_translated, C09_single_block_ok_translated, "
+                   "C09_params_translated)."),
     "level_note": ("Trusted: Lean kernel, the three standard axioms, extractor (limits 128/1024/2/65536/16/-128), correspondence harness. "
                    "Modelled not verified: byte representation of the metadata (memcpy of int8/uint16/pointer values), the manager's contract "
                    "(alignment min(16, lowbit A); disjoint allocations), absence of 64-bit wrap-around of addresses (unbounded integers in the model). "
@@ -46,6 +54,11 @@ PROP = {
         "Momo.Pool.C09_mergeFrom_dll",
         "Momo.Pool.C09_list_ops_dll",
         "Momo.Pool.C09_deallocIf_throw_exact",
+        "Momo.Pool.C09_recover_translated",
+        "Momo.Pool.C09_newBuffer_ok_translated",
+        "Momo.Pool.C09_blocks_disjoint_inside_translated",
+        "Momo.Pool.C09_single_block_ok_translated",
+        "Momo.Pool.C09_params_translated",
     ],
     "harnesses": [
         {"name": name, "src": "c09_pool.cpp", "sanitize": "asan",
